@@ -312,6 +312,7 @@ def finish(ctx, module):
             "stubs": ctx.stubs,
             "solver": {"by_engine": by_solver, "total_solver_s": round(tot_secs, 2), "max_query_s": round(max_secs, 2), "wall_s": round(solver_wall, 2)},
             "encode_s": ctx.encode_secs,
+            "slowest_queries": [{"obligation": o.name, "secs": {k: round(v, 2) for k, v in o.secs.items()}, "by": o.by} for o in sorted(ctx.obs, key=lambda o: -max(o.secs.values() or [0]))[:5]],
             "traces_validated_against_impl": validated,
             "programs": len(hook.EXECUTED),
             "disagreements_checked": len(candidates),
